@@ -1,6 +1,7 @@
 import QbiceVerif.Lemmas.WalkLts
 import QbiceVerif.Lemmas.WalkLtsSnap
 import QbiceVerif.Lemmas.WalkLtsAnyW
+import QbiceVerif.Lemmas.RelockIter
 
 /-!
 # C02, "every request completes" — the walk over a backward-edge set (finding F60)
@@ -147,5 +148,63 @@ example : ∃ s, WK.Reachable 2 false (List.range 30) (f60Tasks 1) s ∧ s.unfin
   obtain ⟨s, hr, hp⟩ := WK.exists_of_run (W := 2) (f := false) (c0 := List.range 30) (ts := f60Tasks 1)
     (evs := f60Schedule 1 ++ [.resume 0, .walkEnd 0, .write 1]) (P := fun s => !s.unfinished) (by decide)
   exact ⟨s, hr, by simpa using hp⟩
+
+/-! ## the iterator of the small tier: guarded for its whole life vs. re-locking per `next()` (`RI`, Model/RelockIter.lean) -/
+
+/-- the assumption `TS.iterBegin`, `WK.walkBegin` and `tiered_set_linearizable` rest on, proved for the iterator AS
+IT IS (index-based `next()`, `swap_remove`, the vector's read guard owned by the iterator): whatever inserts and
+removes are attempted, a finished iteration has returned exactly the content of the vector at `iter()` time — each
+element present then, once, in order. -/
+theorem guarded_iter_is_snapshot {c0 : List Nat} {s : RI.State} (hr : RI.Reachable true c0 s) (hf : s.finished = true) :
+    s.out = s.snap := by
+  have inv := RI.reachable_inv hr
+  cases hidx : s.idx with
+  | none => have := (inv.fresh hidx).2; rw [this] at hf; cases hf
+  | some i =>
+    obtain ⟨hout, _, _, hfin⟩ := inv.alive i hidx
+    rw [hout, hfin hf, List.take_length]
+
+/-- …and while a guarded iterator is alive no insert or remove gets the lock -/
+theorem guarded_iter_excludes_writers {c0 : List Nat} {s : RI.State} (hr : RI.Reachable true c0 s) {i : Nat}
+    (hidx : s.idx = some i) (hf : s.finished = false) (x : Nat) : RI.step s (.rem x) = none ∧ RI.step s (.ins x) = none := by
+  have hg := (RI.reachable_inv hr).guarded
+  simp [RI.step, RI.State.writable, hg, hidx, hf]
+
+/-- SEEDED CHANGE C02-small-set-walk-relock — with the lock taken per `next()` the statement fails (kernel-checked
+witness, `swap_remove` semantics): vector `[0,1,2,3]`; the iteration returns 0 and 1; `remove_element(0)` moves the
+LAST element 3 into slot 0, which the index has passed; the iteration returns 2 and ends.  Element 3 was present
+before, during and after the iteration and was never removed, yet the iteration misses it (for the dirty walk: a
+caller of a changed firewall that is not marked dirty). -/
+theorem relocking_iter_misses_present_element :
+    ∃ s, RI.Reachable false [0, 1, 2, 3] s ∧ s.finished = true ∧ s.snap = [0, 1, 2, 3] ∧ s.removed = [0] ∧
+      3 ∈ s.vec ∧ s.out = [0, 1, 2] := by
+  obtain ⟨s, hr, hp⟩ := RI.exists_of_run (g := false) (c0 := [0, 1, 2, 3]) (evs := [.iter, .next, .next, .rem 0, .next, .next])
+    (P := fun s => decide (s.finished = true ∧ s.snap = [0, 1, 2, 3] ∧ s.removed = [0] ∧ 3 ∈ s.vec ∧ s.out = [0, 1, 2])) (by decide)
+  exact ⟨s, hr, of_decide_eq_true hp⟩
+
+/-- the same at the engine's sizes: 30 callers, the walk has passed 16 of them when caller 3 drops its edge:
+caller 29 (the last one) is never visited -/
+theorem relocking_iter_misses_present_element_30 :
+    ∃ s, RI.Reachable false (List.range 30) s ∧ s.finished = true ∧ s.removed = [3] ∧ 29 ∈ s.vec ∧ 29 ∉ s.out := by
+  obtain ⟨s, hr, hp⟩ := RI.exists_of_run (g := false) (c0 := List.range 30)
+    (evs := [.iter] ++ List.replicate 16 .next ++ [.rem 3] ++ List.replicate 14 .next)
+    (P := fun s => decide (s.finished = true ∧ s.removed = [3] ∧ 29 ∈ s.vec ∧ 29 ∉ s.out)) (by decide)
+  exact ⟨s, hr, of_decide_eq_true hp⟩
+
+/-- …and it can return an element twice (remove + re-insert of an element already returned: the push puts it at the end) -/
+theorem relocking_iter_yields_duplicate :
+    ∃ s, RI.Reachable false [0, 1] s ∧ s.finished = true ∧ s.out = [0, 0] := by
+  obtain ⟨s, hr, hp⟩ := RI.exists_of_run (g := false) (c0 := [0, 1]) (evs := [.iter, .next, .rem 0, .ins 0, .next, .next])
+    (P := fun s => decide (s.finished = true ∧ s.out = [0, 0])) (by decide)
+  exact ⟨s, hr, of_decide_eq_true hp⟩
+
+/-- non-vacuity of `guarded_iter_is_snapshot`: writers before and after a guarded iteration; in between they are
+refused (the witness schedule of `relocking_iter_misses_present_element` is not a schedule of the guarded system) -/
+example : (∃ s, RI.Reachable true [0, 1, 2, 3] s ∧ s.finished = true ∧ s.out = [3, 1, 2] ∧ s.vec = [3, 1]) ∧
+    RI.run (RI.init true [0, 1, 2, 3]) [.iter, .next, .next, .rem 0] = none := by
+  refine ⟨?_, by decide⟩
+  obtain ⟨s, hr, hp⟩ := RI.exists_of_run (g := true) (c0 := [0, 1, 2, 3]) (evs := [.rem 0, .iter, .next, .next, .next, .next, .rem 2])
+    (P := fun s => decide (s.finished = true ∧ s.out = [3, 1, 2] ∧ s.vec = [3, 1])) (by decide)
+  exact ⟨s, hr, of_decide_eq_true hp⟩
 
 end QbiceVerif.C02
